@@ -10,7 +10,7 @@ from decimal import Decimal
 from vlib import common, gen, genval, structures
 
 DATA = common.VERIF / "tools" / "data"
-NEEDED = {"EnergyGen": ["coulomb_energy", "hydrogen_bond_energy", "check_coulomb_pair", "desolv_volume_increment", "calculate_weight", "calculate_scale_factor",
+NEEDED = {"DetsGen": ["add_iterative_acid_pair", "add_iterative_base_pair", "add_iterative_ion_pair"], "EnergyGen": ["coulomb_energy", "hydrogen_bond_energy", "check_coulomb_pair", "desolv_volume_increment", "calculate_weight", "calculate_scale_factor",
                         "desolv_volume_after_allowance", "desolv_energy"], "VecGen": ["squared_distance"]}
 fx = genval.fhex
 
@@ -86,6 +86,61 @@ def corr_desolvation(chk, mol, ngroups):
     return dis
 
 
+def corr_iterative(chk, cases):
+    """the iterative scheme of real runs (objects, interactions, pka_iter after every sweep) vs model/Iterative.v in binary64"""
+    import propka.iterative as I
+    exprs, meta = [], []
+    for name, text in cases:
+        rec = {"objs": [], "calls": []}
+        orig_init, orig_add = I.Iterative.__init__, I.add_determinants
+
+        def init(self, group, _o=orig_init):
+            _o(self, group)
+            rec["objs"].append(self)
+
+        def add(iterative_interactions, version, _o=orig_add):
+            start = len(rec["objs"])
+            snap = [(it[0][0], it[0][1], float(it[1][0]), float(it[1][1]), (float(it[2][0]), float(it[2][1]))) for it in iterative_interactions]
+            _o(iterative_interactions, version)
+            rec["calls"].append((snap, rec["objs"][start:], list(version.parameters.exclude_sidechain_interactions)))
+        I.Iterative.__init__, I.add_determinants = init, add
+        try:
+            import propka.determinants as D
+            saved = D.propka.iterative.add_determinants
+            structures.run(text)
+        finally:
+            I.Iterative.__init__, I.add_determinants = orig_init, orig_add
+        for ci, (snap, objs, excl) in enumerate(rec["calls"]):
+            if not objs:
+                continue
+
+            def index_of(g):
+                for k, o in enumerate(objs):
+                    if o.group == g:
+                        return k
+                return None
+            ol = "[" + "; ".join(f"mk_obj {fx(float(o.q))} {fx(o.pka_noniterative)} {fx(o.pka_noniterative)} {'true' if o.res_name in excl else 'false'}" for o in objs) + "]"
+            il = "[" + "; ".join(f"mk_inter {index_of(a)}%nat {index_of(b)}%nat {fx(hb)} {fx(co)} ({fx(an[0])}, {fx(an[1])})" for a, b, hb, co, an in snap) + "]"
+            exprs.append(f"map (map fout) (run_iterative {ol} {il})")
+            meta.append((f"{name} call {ci}", [[float(x) for x in o.pka_iter] for o in objs], [o.label for o in objs]))
+    pre = ("From Coq Require Import ZArith List PrimFloat.\nFrom V Require Import Num FloatIO DetsGen Iterative.\nImport ListNotations.\nOpen Scope float_scope.\n")
+    res = common.coq_eval("c05i", pre, exprs, shard=2)
+    dis = []
+    nobj = nsweep = 0
+    for (name, real, labels), r in zip(meta, res):
+        model = [[genval.decode_fout(t) for t in row] for row in r]
+        nobj += len(real)
+        nsweep = max(nsweep, max((len(x) for x in real), default=1) - 1)
+        if [[genval.bits(v) for v in row] for row in model] != [[genval.bits(v) for v in row] for row in real]:
+            k = next((i for i, (a, b) in enumerate(zip(model, real)) if [genval.bits(v) for v in a] != [genval.bits(v) for v in b]), None)
+            dis.append({"case": name, "object": labels[k] if k is not None else "count", "impl_pka_iter": real[k] if k is not None else len(real),
+                        "model_pka_iter": model[k] if k is not None else len(model)})
+    chk.corr_stats["iterative scheme (pka_iter of every object after every sweep) ~ model/Iterative.v (Coq binary64)"] = {
+        "calls": len(meta), "objects": nobj, "max_sweeps": nsweep, "disagreements": len(dis)}
+    chk.cov["traces_validated_against_impl"] += len(meta)
+    return dis
+
+
 # ------------------------------------------------------------------------------------------------ search
 def relabel(text, chainmap, serial0):
     """chain ids renamed by chainmap (dict), serial numbers renumbered from serial0 (kept within 5 columns)"""
@@ -137,7 +192,7 @@ def run(chk: common.Check):
     common.impl_setup()
     rng = chk.rng
     missing = [(m, f) for m, fs in NEEDED.items() for f in fs if f in gen.GEN_ERRORS or f not in gen.MODULES[m].funcs]
-    proved, sdis, ddis, inf_start = False, [], [], True
+    proved, sdis, ddis, idis, inf_start = False, [], [], [], True
     if missing:
         why = gen.GEN_ERRORS.get(missing[0][1], "not generated")
         chk.obligations.append((f"translate {missing[0][1]}", False, why))
@@ -148,6 +203,9 @@ def run(chk: common.Check):
         chk.obligations.append(("calculations.MAX_DISTANCE is float('inf') (hypothesis `None` of C05_smallest_distance_always_finds_a_pair)", inf_start, ""))
         mol, _ = structures.run(structures.read("3SGB-subset.pdb"))
         ddis = corr_desolvation(chk, mol, 10 if chk.thorough else 4)
+        idis = corr_iterative(chk, [("1HPX", structures.read("1HPX.pdb")), ("carboxylate triangle", (DATA / "carboxylate_triangle.pdb").read_text() + "END\n"),
+                                    ("3SGB-subset", structures.read("3SGB-subset.pdb"))]
+                              + ([("4DFR", structures.read("4DFR.pdb")), ("1FTJ-Chain-A", structures.read("1FTJ-Chain-A.pdb"))] if chk.thorough else []))
 
     found = []
     S = lambda n: "\n".join(l for l in structures.read(n).splitlines() if structures.is_atom(l) or l[:3] == "TER") + "\n"
@@ -221,8 +279,9 @@ def run(chk: common.Check):
     if missing or not proved or not inf_start:
         name = "props/C05.v" if (not missing and inf_start) else (f"translation of {missing[0][1]}" if missing else "hypothesis MAX_DISTANCE = inf of C05_smallest_distance_always_finds_a_pair")
         chk.broken("proof", name, getattr(chk, "broken_obligation", None) or {"MAX_DISTANCE": "finite"}, search_fn=lambda: found)
-    elif sdis or ddis or gv:
-        chk.broken("correspondence", "model/Locality.v ~ get_smallest_distance / radial_volume_desolvation", {"smallest": sdis[:3], "desolvation": ddis[:3], "genval": gv[:2]}, search_fn=lambda: found)
+    elif sdis or ddis or idis or gv:
+        chk.broken("correspondence", "model/Locality.v ~ get_smallest_distance / radial_volume_desolvation; model/Iterative.v ~ iterative.add_determinants",
+                   {"smallest": sdis[:3], "desolvation": ddis[:3], "iterative": idis[:3], "genval": gv[:2]}, search_fn=lambda: found)
     else:
         for sig, what, rep in found:
             chk.finding(sig, what, rep)
